@@ -84,22 +84,43 @@ pub(crate) fn wait_for_exit<T>(handle: &std::thread::JoinHandle<T>) {
     }
 }
 
-/// Modelled acquisition of a mutex that is held across a blocking call by some code path: the
-/// calling thread never blocks on the real lock while it holds the scheduler's baton.
-pub(crate) fn lock<'a, T>(label: &'static str, mutex: &'a std::sync::Mutex<T>) -> std::sync::MutexGuard<'a, T> {
-    let Some(h) = HOOKS.get() else {
-        return mutex.lock().expect(crate::NEVER_POISONED);
-    };
-    let mut guard = None;
-    (h.block_until)(label, &mut || match mutex.try_lock() {
-        Ok(g) => {
-            guard = Some(g);
-            true
-        }
-        Err(std::sync::TryLockError::WouldBlock) => false,
-        Err(std::sync::TryLockError::Poisoned(_)) => panic!("{}", crate::NEVER_POISONED),
-    });
-    guard.expect("block_until returns only after the condition held")
+/// `Mutex` stand-in used by the pool under `cfg(folo_verif)`: every acquisition is a scheduling
+/// point and a *modelled* wait (a `try_lock` loop under the harness scheduler), so a lock
+/// acquisition added by a later change is covered without a hand-placed `point`, and a thread never
+/// blocks on a real lock while it holds the scheduler's baton (one code path holds
+/// `worker_handles` across a join). Without installed hooks it is a plain `std::sync::Mutex`.
+pub struct Mutex<T>(std::sync::Mutex<T>);
+
+impl<T> Mutex<T> {
+    pub const fn new(value: T) -> Self {
+        Self(std::sync::Mutex::new(value))
+    }
+
+    pub fn lock(&self) -> std::sync::LockResult<std::sync::MutexGuard<'_, T>> {
+        let Some(h) = HOOKS.get() else {
+            return self.0.lock();
+        };
+        (h.point)("mutex.lock");
+        let mut result = None;
+        (h.block_until)("mutex.lock", &mut || match self.0.try_lock() {
+            Ok(guard) => {
+                result = Some(Ok(guard));
+                true
+            }
+            Err(std::sync::TryLockError::WouldBlock) => false,
+            Err(std::sync::TryLockError::Poisoned(poisoned)) => {
+                result = Some(Err(poisoned));
+                true
+            }
+        });
+        result.expect("block_until returns only after the condition held")
+    }
+}
+
+impl<T: std::fmt::Debug> std::fmt::Debug for Mutex<T> {
+    fn fmt(&self, f: &mut std::fmt::Formatter<'_>) -> std::fmt::Result {
+        self.0.fmt(f)
+    }
 }
 
 /// Modelled wait on an `event-listener` listener: the listener stays registered and is polled
